@@ -278,22 +278,6 @@ impl C18 {
         match arrow {
             Ok(a) => {
                 ctx.outcome("Ok");
-                // a map whose declared codomain has the wrong size while its domain is right and every entry is a
-                // node / hyperedge of the target preserves everything the statement names: accepting it is not judged
-                let codomain_only = m.w.0.len() == m.g.w.len() && m.x.0.len() == m.g.e.len()
-                    && m.w.0.iter().all(|&v| v < m.h.w.len()) && m.x.0.iter().all(|&k| k < m.h.e.len())
-                    && (m.w.1 != m.h.w.len() || m.x.1 != m.h.e.len())
-                    && {
-                        let mut t = m.clone();
-                        t.w.1 = m.h.w.len();
-                        t.x.1 = m.h.e.len();
-                        failing(&t).0.is_empty()
-                    };
-                if codomain_only {
-                    ctx.count("unjudged:accepted_with_wrongly_declared_codomain_only");
-                    let _ = a;
-                    return;
-                }
                 if !fail.is_empty() {
                     ctx.violation(&format!("HypergraphArrow::new/accepts-iff-natural/value/{}", class), json!({"input": input(), "observed": "Ok", "failing_conditions": format!("{:?}", fail)}));
                     return;
@@ -423,7 +407,7 @@ impl Monitor for C18 {
          sources or targets, a per-hyperedge segment boundary shifted with the flat incidence array unchanged, codomain of either map off by one, domain of the node map too small), (c) random junk maps. Oracle: the set of naturality conditions {W,X,S,T} that fail on the \
          plain model; Ok iff the set is empty; an Err must name a member of the set (type-mismatch variants only when the codomain really is wrong); monomorphism = both tables injective; \
          convexity = monomorphism and exhaustive search over (node, used-an-outside-edge) states finds no image node reachable from an image node through an outside edge. \
-         non-trivial = target with >=2 hyperedges; distinct = hash of (source, target, maps). Also: is_monomorphism asked of every pair of maps (through the public fields, accepted or not), five more ways of mistyping a map (either domain too small / too large, codomain too small, both codomains), paths of 200 operations for the convexity search; floors per perturbation class; accepting a pair whose only defect is a wrongly declared codomain is not judged."
+         non-trivial = target with >=2 hyperedges; distinct = hash of (source, target, maps). Also: is_monomorphism asked of every pair of maps (through the public fields, accepted or not), five more ways of mistyping a map (either domain too small / too large, codomain too small, both codomains), paths of 200 operations for the convexity search; floors per perturbation class; a map whose declared codomain is not the target's node / hyperedge set is mistyped and must be rejected."
     }
     fn corpus_len(&self) -> u64 {
         corpus().len() as u64
